@@ -389,6 +389,87 @@ theorem single_name_no_deadlock {s : State} (h : Reach s) (t a : Nat)
 example (s : State) (t a : Nat) (ht : t ≠ 0) (hp : (s.thr t).pc = .run) :
     (step s (.look t a)).isSome = true := by simp [step, ht, hp]
 
+/-- A thread that waits for a mutex can do nothing else: the only event of its own that can be
+    enabled is `lock`. -/
+theorem waiting_thread_only_lock {s : State} {t a : Nat} {e : Event}
+    (hp : (s.thr t).pc = .wantLock a) (ht : thread e = t) (he : (step s e).isSome = true) :
+    e = .lock t := by
+  cases e <;> simp only [thread] at ht <;> subst ht <;> simp [step, hp] at he ⊢
+
+/-- **No deadlock when names are nested in one global order.** Let `s` be reachable, let all names
+    anybody waits for lie below some bound `N` (the program has finitely many names), and let every
+    thread nest names in increasing order: a thread that waits for `b` holds only names `a < b`
+    (a hypothesis about the PROGRAM — the protocol cannot enforce it). If some thread waits, then
+    the system is not stuck, and not for a vacuous reason: some thread that is *inside the
+    protocol* (its pc is not `run`, so this is not an unrelated idle thread starting a block) has
+    an enabled step, or some thread that holds a name is executing its body. Proof: follow the
+    chain waiter → holder → the name the holder waits for; names strictly increase along it and
+    are bounded by `N` (`waiter_progress` at every link). -/
+theorem ordered_names_no_deadlock {s : State} (h : Reach s) (N : Nat)
+    (hbound : ∀ x b, (s.thr x).pc = .wantLock b → b < N)
+    (hord : ∀ x a b, (s.thr x).pc = .wantLock b → (s.thr x).holds a = true → a < b)
+    (t a : Nat) (hp : (s.thr t).pc = .wantLock a) :
+    (∃ x e, thread e = x ∧ (s.thr x).pc ≠ .run ∧ (step s e).isSome = true) ∨
+    (∃ x c, (s.thr x).pc = .run ∧ (s.thr x).holds c = true) := by
+  have key : ∀ k, ∀ t a, N - a = k → (s.thr t).pc = .wantLock a →
+      ((∃ x e, thread e = x ∧ (s.thr x).pc ≠ .run ∧ (step s e).isSome = true) ∨
+       (∃ x c, (s.thr x).pc = .run ∧ (s.thr x).holds c = true)) := by
+    intro k
+    induction k using Nat.strongRecOn with
+    | _ k ih =>
+      intro t a hk hp
+      rcases waiter_progress h t a hp with h1 | ⟨x, _, hh, h2 | ⟨e, he1, he2⟩ | ⟨b, hb, hpb⟩⟩
+      · exact Or.inl ⟨t, .lock t, rfl, by simp [hp], h1⟩
+      · exact Or.inr ⟨x, a, h2, hh⟩
+      · by_cases hr : (s.thr x).pc = .run
+        · exact Or.inr ⟨x, a, hr, hh⟩
+        · exact Or.inl ⟨x, e, he1, hr, he2⟩
+      · have hab : a < b := hord x a b hpb hh
+        have hbN : b < N := hbound x b hpb
+        have haN : a < N := hbound t a hp
+        exact ih (N - b) (by omega) x b rfl hpb
+  exact key (N - a) t a rfl hp
+
+/-- non-vacuity: a reachable state with a waiter in which the hypotheses of
+    `ordered_names_no_deadlock` hold (thread 1 is in the body of a block of name 0, thread 2 waits
+    for name 0 and holds nothing; bound `N = 1`) -/
+example : ∃ s, Reach s ∧ (s.thr 2).pc = .wantLock 0 ∧
+    (∀ x b, (s.thr x).pc = .wantLock b → b < 1) ∧
+    (∀ x a b, (s.thr x).pc = .wantLock b → (s.thr x).holds a = true → a < b) := by
+  cases hs : run init [.look 1 0, .decide 1, .lock 1, .setOwner 1, .look 2 0, .decide 2] with
+  | none => exact absurd hs (by decide)
+  | some s =>
+    have hr : Reach s := Reach.run Reach.init hs
+    simp [run, step, init, idle, setThr, setMtx] at hs
+    subst hs
+    refine ⟨_, hr, by simp, ?_, ?_⟩
+    · intro x b hx
+      by_cases h2 : x = 2
+      · subst h2; simp at hx; omega
+      · by_cases h1 : x = 1
+        · subst h1; simp at hx
+        · simp [h2, h1] at hx
+    · intro x a b hx hh
+      by_cases h2 : x = 2
+      · subst h2; simp [Thread.holds, pcHolds] at hh
+      · by_cases h1 : x = 1
+        · subst h1; simp at hx
+        · simp [h2, h1] at hx
+
+/-- **Without an order the clause cannot hold: two threads, two names.** Thread 1 holds name 0 and
+    waits for name 1, thread 2 holds name 1 and waits for name 0 — a reachable state of the real
+    protocol (`step`) in which neither `lock` is enabled; by `waiting_thread_only_lock` these
+    two threads have no other event, so they wait forever. "A later entrant always gets in" is
+    therefore a property of the protocol only relative to the program's nesting order
+    (`ordered_names_no_deadlock`); this state violates the order hypothesis (thread 2 holds 1 and
+    waits for 0). -/
+theorem two_names_opposite_order_deadlock :
+    (run init [.look 1 0, .decide 1, .lock 1, .setOwner 1, .look 2 1, .decide 2, .lock 2, .setOwner 2,
+      .look 1 1, .decide 1, .look 2 0, .decide 2]).map
+      (fun s => ((s.thr 1).pc, (s.thr 1).holds 0, (s.thr 2).pc, (s.thr 2).holds 1,
+        (step s (.lock 1)).isSome, (step s (.lock 2)).isSome))
+      = some (.wantLock 1, true, .wantLock 0, true, false, false) := by decide
+
 /-- **No lost update.** A variable that is read and written only inside blocks of one name
     (`read`/`write` events are enabled only there; the increment is *not* atomic: any number of
     events of other threads may come between the read and the write) always holds the number of
@@ -562,15 +643,10 @@ example (s : State) (a : Nat) : step s (.look 0 a) = none := by simp [step]
 
 /-- **A thread is its id.** No call in the tree evaluates ECAL code with an integer literal as
     thread id (regenerated: `Ecal.Gen.C12.literalTids`, all packages, `Runtime.Eval` and
-    `ECALFunction.Run`). The second disjunct is the ONE recorded hit on the tree as it was when
-    this was written — the debugger's `inject` evaluates as "thread 999", so two concurrent
-    injections (or an injection and the pool's 999th id) re-enter each other's blocks: a genuine
-    violation of C12, shown by harness mode J (occupancy 5 in one block) and recorded as known
-    finding `inject-shares-thread-999` until the repair (a fresh id per injection, owned by
-    property C16) is in the tree; then the list is empty and the disjunct is dropped. -/
-theorem no_literal_tid :
-    Ecal.Gen.C12.literalTids = [] ∨
-    Ecal.Gen.C12.literalTids = ["interpreter/ecalDebugger.InjectValue:999"] := by decide
+    `ECALFunction.Run`). (The one hit there was — the debugger's `inject` evaluated as "thread 999",
+    so concurrent injections re-entered each other's blocks — is repaired in /repo f411ead: a fresh
+    id per injection; harness mode J runs concurrent injections as ordinary cases.) -/
+theorem no_literal_tid : Ecal.Gen.C12.literalTids = [] := by decide
 
 /-- The shape of `NewThreadID` extracted from `/repo` on every run (`Ecal.Gen.C12.idSkeleton`):
     the read and the increment of the id counter happen inside ONE critical section (or are one
